@@ -428,3 +428,30 @@ PROPS["C18"] = dict(
         seeded("start", "e2e", "^TestC18Start$", 2000 if tier == "quick" else 50000, 1, timeout=900),
     ],
 )
+
+PROPS["C19"] = dict(
+    title="Media and control are bound to the negotiated peer",
+    pkg="e2e",
+    rule=("rapid-generated intrusions against a live server and a live client. (server-udp) a session recording or playing over UDP, set up by a "
+          "scripted peer that owns the negotiated client ports; 1..4 intruders send 1..5 datagrams each (valid RTP for the session, SR/RR/BYE, "
+          "garbage) to the server's RTP or RTCP port from 127.0.0.1 with another port, or from 127.0.0.2/127.0.0.3 with another port, the same "
+          "port number, or the peer's other port, between two groups of legitimate packets. (client-udp) a library client playing over UDP "
+          "(AnyPortEnable on/off, the server having spoken first on both ports) receives the same kinds of datagrams from addresses and ports "
+          "that are not the server's. Oracle: packet callbacks fire only for the legitimate packets (payload markers), nothing fires while only "
+          "intruders send, Stats() count no more than the legitimate packets; in a quarter of the cases the legitimate side then goes silent "
+          "while intruders keep sending every 40 ms: the session must still time out / the client must still report the UDP timeout. (control) "
+          "a session in state set-up / play / record / paused over TCP or UDP; 1..5 requests (TEARDOWN, PAUSE, PLAY, RECORD, SETUP, "
+          "GET/SET_PARAMETER, OPTIONS, ANNOUNCE) carrying its id arrive on other connections from 127.0.0.2 or from the same address. Oracle: "
+          "from another address always, and from the same address while the session streams over its interleaved connection, the answer is an "
+          "error (or the intruding connection is closed); afterwards the handler saw nothing for that session from another connection, its "
+          "state is unchanged, and its owner's GET_PARAMETER still gets 200. Non-trivial: >=1 intruder datagram among >=1 delivered legitimate "
+          "packets, or >=1 replayed request refused. Distinct by case hash."),
+    assumptions=[
+        "the loopback aliases 127.0.0.2 and 127.0.0.3 are usable as source addresses (true on Linux); IPv4-mapped IPv6 sources cannot be produced towards an IPv4 socket and are not exercised",
+        "with AnyPortEnable the first datagram fixes the port by design, so the legitimate server is made to speak first",
+        "fixed UDP ports 61300..61900 (by shard) are assumed free",
+    ],
+    jobs=lambda tier: [
+        seeded("bind", "e2e", "^TestC19$", 60 if tier == "quick" else 1500, 16, timeout=900 if tier == "quick" else 3400),
+    ],
+)
